@@ -474,7 +474,7 @@ int disasm_riscv(
 
   strcpy(instruction, "???");
 
-  return -1;
+  return 4;
 }
 
 static int permutate_16(int opcode, int8_t *table)
